@@ -28,11 +28,15 @@ MANIFEST = {
             "C11_range_rejects_widening (whatever compiles under a restricted base lies inside it), "
             "C11_range_chain_never_widens, C11_range_compiled_ascending, C11_range_validate_agrees (lyplg_type_validate_range "
             "decides membership), C11_range_no_overread (the base check never indexes beyond the parts array), "
-            "C11_range_total, C11_range_parts_in_type. The model follows the code and carries its remaining leniencies with "
+            "C11_range_total, C11_range_parts_in_type; C11_range_inherits_all_parts / C11_range_unrestricted_level_neutral (a "
+            "typedef that restates no range / length - or only adds a pattern - hands down ALL parts of the inherited "
+            "restriction; regression Example against a first-part-only copy). The model follows the code and carries its remaining leniencies with "
             "refutation theorems and replayed witnesses: 1..9..3 / 127 | max / decimal64 - / +5 are accepted, 3..7 under "
             "1..5 | 6..9 / 0..min / 1.50 are rejected. The former defects (1 50 widened its base; 1|| read beyond the parts "
             "array) are fixed and kept as regression Examples. "
-            "(3) dependency sets (Properties_C11_depset.v): C11_depset_closed. "
+            "(3) dependency sets (Properties_C11_depset.v): C11_depset_exact - the set computed for a module is exactly the "
+            "modules with data nodes or features connected to it by import chains (either direction) through modules "
+            "lys_has_dep_mods lets the traversal pass; C11_depset_total - the model's fuel always suffices. "
             "Tie: extracted models vs lys_compile_iffeature / lysc_iffeature_value and vs lys_compile_type_range called "
             "directly and through lys_parse_mem on generated typedef chains (depth 1-4, int8..uint64, decimal64 fd 1/2/9/18, "
             "string / binary length) with lyd_value_validate probes at every boundary +-1 (T2). "
@@ -59,9 +63,9 @@ MANIFEST = {
             "dependency set of lys_unres_dep_sets_create (which modules are recompiled when a module changes), is modelled in "
             "DepSet.v (all modules implemented, no submodules) and tied by the component depset (families of 2-7 modules with "
             "random imports / features / data / groupings / typedefs / augments / deviations, exact set and order): "
-            "C11_depset_closed proves that the set computed for a module contains every module with data nodes or features "
+            "C11_depset_exact proves that the set computed for a module is exactly the set of modules with data nodes or features "
             "connected to it by import chains (either direction) through modules lys_has_dep_mods lets the traversal pass "
-            "(hypothesis: the model's fuel, number of modules + 1, is not exhausted - not proved, never seen). That these "
+            "(no fuel hypothesis: C11_depset_total). That these "
             "chains are ALL the ways a compiled tree can depend on another module is the modelling assumption behind "
             "lys_has_dep_mods (checked by history-indep, which found the typedef-only / deviation-only gaps fixed by 64300ce). "
             "Statements living in submodules resolve prefixes in the submodule's own imports: flatten-equiv moves augments of "
